@@ -30,10 +30,14 @@ RULES = {
     "the 200 that answered a conditional request are replayed in turn; (I) unrelated request headers around the validators; (J) the remembered "
     "response taken after the file's mtime was set back / the file was touched / read, so that atime, mtime and ctime already differ; (K) the "
     "date validator in process time zones with daylight-saving rules (northern, southern, European) in their winter and summer, after a leap "
-    "day, after 2038; (L) two files with equal time stamps served and revalidated alternately by one instance while one of them is modified",
+    "day, after 2038; (L) two files with equal time stamps served and revalidated alternately by one instance while one of them is modified; (M) the "
+    "If-None-Match list spread over 2 and 3 header lines (separate pairs on ASGI, joined with ', ' by the WSGI server model): the file's tag - "
+    "strong, weak, inside a comma list - on the first / middle / last line, foreign and near-miss tags on the others, If-Modified-Since in "
+    "front of / between / behind the lines; only near-miss tags on three lines (200 required)",
     "histories2": "Hypothesis: histories as in `histories` with all of the above drawn freely: one application instance or a fresh one per request, "
     "constructor options, flat or nested layout with pretty URLs, GET/HEAD, delete / shrink / truncate / access operations, all 20 validator "
-    "forms, unrelated headers, and the 200 answers to conditional requests remembered as further responses j",
+    "forms and the 20 multi-line forms of grid2 (M) (`histories` draws the multi-line forms as well), unrelated headers, and the 200 answers "
+    "to conditional requests remembered as further responses j",
 }
 ASSUMPTIONS = [
     "undetectable class: same size and identical mtime - a 304 is tolerated there; for Last-Modified-only validators any change whose "
@@ -48,7 +52,15 @@ T0 = 1_700_000_000.25
 FORMS = ["etag", "weak", "list-first", "list-middle", "list-last", "weak-in-list", "weak-first-in-list", "star", "lastmod", "both", "list-nospace", "near-tags"]
 # further forms (sub-checks grid2 / histories2)
 FORMS2 = ["list-long", "list-tabs", "list-empty-members", "weak-list-nospace", "weak-both", "list-both", "both-ims-first", "star-both"]
-ALL_FORMS = FORMS + FORMS2
+# the If-None-Match list spread over 2 or 3 header LINES (a list-valued field may arrive on several lines: an ASGI server hands
+# them over as separate pairs, a WSGI server joins them with ", "): ml<lines>-<line that carries the file's own tag>[-weak][-list]
+# [-imsbefore|-imsmid|-imsafter]; the other lines carry foreign and near-miss tags (one of them is itself a comma list);
+# `-list`: the own tag sits in the middle of a comma list on its line; `ims*`: If-Modified-Since in front of / between / behind them
+FORMS3 = ["ml2-first", "ml2-last", "ml2-first-weak", "ml2-last-weak", "ml3-first", "ml3-middle", "ml3-last", "ml3-first-weak", "ml3-middle-weak",
+          "ml3-last-weak", "ml2-first-list", "ml2-last-list", "ml3-middle-weak-list", "ml2-first-imsbefore", "ml2-first-imsafter",
+          "ml2-last-imsbefore", "ml3-first-imsmid", "ml3-last-weak-imsafter", "ml3-middle-list-imsbefore", "ml-near"]
+ALL_FORMS = FORMS + FORMS2 + FORMS3
+NEAR_FORMS = ("near-tags", "ml-near")  # only tags of other representations
 STAR_FORMS = ("star", "star-both")
 BASIC_FORMS = ("etag", "lastmod", "both", "star")
 MODS = ("rewrite_same", "rewrite_other", "touch", "restore_old", "rewrite_shrink", "truncate")
@@ -151,10 +163,34 @@ class World:
             f["mods_since"][j].append(kind)
 
 
+def _multiline(form, etag, lm, bare):
+    """Header PAIRS (repeated names) for the FORMS3 family."""
+    if form == "ml-near":
+        return [["If-None-Match", f'"{bare[:-1]}", "foreign1"'], ["If-None-Match", f'W/"{bare}x"'], ["If-None-Match", f'"x{bare}"']]
+    parts = form.split("-")
+    n = int(parts[0][2:])
+    own = ("W/" if "weak" in parts else "") + etag
+    if "list" in parts:
+        own = f'"foreign0", {own}, W/"foreign9"'
+    lines = [f'"{bare[:-1]}", "foreign1"', f'W/"{bare}x"'][: n - 1]
+    lines.insert({"first": 0, "middle": 1, "last": n - 1}[parts[1]], own)
+    pairs = [["If-None-Match", v] for v in lines]
+    if "imsbefore" in parts:
+        pairs.insert(0, ["If-Modified-Since", lm])
+    elif "imsmid" in parts:
+        pairs.insert(1, ["If-Modified-Since", lm])
+    elif "imsafter" in parts:
+        pairs.append(["If-Modified-Since", lm])
+    return pairs
+
+
 def validators(form, snap):
+    """The conditional headers of one request: a dict, or a list of pairs where a name is repeated."""
     etag, lm = snap["etag"], snap["lastmod"]
     bare = etag.strip('"')
     h = {}
+    if form in FORMS3:
+        return _multiline(form, etag, lm, bare)
     if form == "etag":
         h["If-None-Match"] = etag
     elif form == "weak":
@@ -249,8 +285,9 @@ def make_app(world, kind, side, opts=None):
 def do_request(world, kind, side, name, headers, app=None, method="GET", noise=False):
     if app is None:
         app = make_app(world, kind, side)
-    url = url_for(kind, name, bool(headers.get("_strip_html")))
-    hdrs = [[k, v] for k, v in headers.items() if not k.startswith("_")]
+    pairs = [list(kv) for kv in (headers.items() if isinstance(headers, dict) else headers)]
+    url = url_for(kind, name, any(k == "_strip_html" and v for k, v in pairs))
+    hdrs = [[k, v] for k, v in pairs if not k.startswith("_")]
     if noise:
         hdrs = NOISE_BEFORE + hdrs + NOISE_AFTER
     rq = gw.areq(method=method, path=url, headers=hdrs)
@@ -366,10 +403,10 @@ def _oracle(case) -> Result:
                 method = ex.get("method", "GET")
                 snap = f["snaps"][j]
                 hdrs = validators(form, snap)
+                sent = list(hdrs.items()) if isinstance(hdrs, dict) else list(hdrs)
                 if ex.get("pretty"):
-                    hdrs["_strip_html"] = True
-                run = do_request(world, kind, side, name, hdrs, app_for(side), method, bool(ex.get("noise")))
-                hdrs.pop("_strip_html", None)
+                    sent = sent + [["_strip_html", True]]
+                run = do_request(world, kind, side, name, sent, app_for(side), method, bool(ex.get("noise")))
                 if run.exc is not None:
                     r.fail(f"C14:{side}:raised:{type(run.exc).__name__}", f"{ctx}: {run.exc!r}")
                     return r
@@ -409,7 +446,7 @@ def _oracle(case) -> Result:
                     if status != 304:
                         r.fail(f"C14:{side}:star-not-304", desc)
                     continue
-                if form == "near-tags":
+                if form in NEAR_FORMS:
                     # the client holds other representations: a 304 would leave it with a stale one
                     if status != 200 or not body_ok:
                         r.fail(f"C14:{side}:304-for-foreign-tag", desc)
@@ -478,7 +515,7 @@ def history_case(draw):
         st.tuples(st.sampled_from(["rewrite_same", "rewrite_other", "touch", "restore_old"]), fidx),
         st.tuples(st.just("get"), fidx, side, st.booleans()),
         st.tuples(st.just("cond"), fidx, side, st.integers(0, 5), st.sampled_from(FORMS)),
-        st.tuples(st.just("cond"), fidx, side, st.integers(0, 5), st.sampled_from(FORMS)),
+        st.tuples(st.just("cond"), fidx, side, st.integers(0, 5), st.sampled_from(FORMS + FORMS3)),
     ).map(list)
     ops = draw(st.lists(op, min_size=2, max_size=13))
     first = ["get", 0, draw(side), False]
@@ -587,7 +624,7 @@ def grid2_cases():
     for kind, side in KS:
         for f, pretty in ((0, False), (1, True)) if kind == "pages" else ((0, False),):
             ex = {"pretty": True} if pretty else {}
-            for form in ALL_FORMS:
+            for form in FORMS + FORMS2 + ["ml2-first", "ml3-middle-weak", "ml3-last-weak-imsafter", "ml-near"]:
                 yield {"kind": kind, "nfiles": 2, "ops": [["get", f, side, pretty], ["delete", f], ["cond", f, side, 0, form, ex], ["get", f, side, pretty]]}
                 yield {"kind": kind, "nfiles": 2, "ops": [["get", f, side, pretty], ["advance", 2], ["delete", f], ["rewrite_other", f], ["cond", f, side, 0, form, ex],
                                                           ["get", f, side, pretty], ["cond", f, side, 1, form, ex]]}
@@ -662,6 +699,18 @@ def grid2_cases():
                     ops = [["get", 0, side, False], ["get", 1, side, False], ["cond", 0, side, 0, form], ["cond", 1, side, 0, form], ["advance", 2]] + ([[mod, 0]] if mod else []) + \
                           [["cond", 1, side, 0, form], ["cond", 0, side, 0, form], ["get", 0, side, False], ["cond", 1, side, 0, "etag"], ["cond", 0, side, 1, "etag"]]
                     yield {"kind": kind, "nfiles": 2, "ops": ops, "app": app}
+    # (M) the If-None-Match list on 2 and 3 header lines: own tag (strong / weak / inside a comma list) on the first, middle, last line,
+    # with and without If-Modified-Since in front, between, behind; fresh and long-lived instance; also through the pretty URL and with HEAD
+    for kind, side in KS:
+        for form in FORMS3:
+            for mod, dt in ((None, 0), ("rewrite_same", 2), ("rewrite_other", 0)):
+                yield {"kind": kind, "nfiles": 1, "ops": hist(side, 0, [["get", 0, side, False]], dt, mod, [["cond", 0, side, 0, form]])}
+            yield {"kind": kind, "nfiles": 1, "app": "shared", "chain": True,
+                   "ops": [["get", 0, side, False], ["cond", 0, side, 0, form, {"method": "HEAD"}], ["cond", 0, side, 0, form, {"noise": True}], ["advance", 1], ["touch", 0],
+                           ["cond", 0, side, 0, form], ["cond", 0, side, 1, form]]}
+            if kind == "pages":
+                yield {"kind": kind, "nfiles": 2, "ops": [["get", 1, side, True], ["cond", 1, side, 0, form, {"pretty": True}], ["advance", 0], ["rewrite_other", 1],
+                                                          ["cond", 1, side, 0, form, {"pretty": True}]]}
     # (I) unrelated headers (some with look-alike names) around the validators
     for kind, side in KS:
         for mod in (None, "rewrite_other"):
@@ -675,7 +724,7 @@ def run(rec, only=None):
     rec.exhaustive["grid"] = True
     core.drive_cases(rec, "grid2", grid2_cases(), oracle)
     rec.exhaustive["grid2"] = True
-    core.drive_hypothesis(rec, "histories", history_case(), oracle, 600 if quick else 15000)
+    core.drive_hypothesis(rec, "histories", history_case(), oracle, 600 if quick else 60000)
     rec.exhaustive["histories"] = False
-    core.drive_hypothesis(rec, "histories2", history2_case(), oracle, 400 if quick else 15000)
+    core.drive_hypothesis(rec, "histories2", history2_case(), oracle, 400 if quick else 60000)
     rec.exhaustive["histories2"] = False
